@@ -148,6 +148,12 @@ def check(run):
             why = "reported success but the bytes do not decode to the input (%s)" % f["DEC"]
         elif f["RET"] == "-7":
             why = "second batch on the same work pool gave a different result"
+        elif f["PARAMSOK"] == "0" and int(t["T"]) == 1 and t["E"] == "pool":
+            # with a real work pool the entry point validates the whole parameter list first and refuses the call
+            # (the one-thread shortcut of BrotliEncoderCompressMulti, which skips a refused parameter, is taken
+            # only for a NULL pool)
+            if f["RET"] != "0":
+                why = "work-pool entry point accepted a parameter list that set_parameter refuses"
         elif f["RET"] != f["RRET"] and (f["PARAMSOK"] == "1" or int(t["T"]) == 1):
             why = "C ABI returned %s, the equivalent Rust call %s" % (f["RET"], f["RRET"])
         elif f["RET"] == "1" and f["RRET"] == "1" and f["SAME"] != "1":
